@@ -239,7 +239,8 @@ def check_euler(ctx, c):
     dx, sc = model.derivative(x)
     ctx.note(c, nontrivial(spec, model, dx), classes_of(spec, model, dx) + ["route:" + c["route"]])
     system = sut_call("build_system", B.build_system, spec, c["route"])
-    dt = pick_dt(x, dx, sc)
+    from vlib.ratelaw import tame_dt
+    dt = min(pick_dt(x, dx, sc), F(tame_dt(model, frac=0.05)))
     U = c["out"]
     if c["dt_form"] == "bare":
         dt_arg = float(dt / si.TIME[U["time"]])
